@@ -307,6 +307,11 @@ pub fn run(tier: &str, seed: u64) -> i32 {
         bounded(&a, &b64(2, &ok2), "two zstd frames of 1000 bytes");
         forced += 4;
     }
+    // frame headers that only declare a content size (0, 1, LIMIT, LIMIT+1, 2^32-1, 2^63, 2^63+1, 2^64-1, ...)
+    for f in super::c09::forged_zstd_headers(false) {
+        bounded(&a, &b64(2, &f), &format!("forged zstd frame header {}", hx(&f[..f.len().min(14)])));
+        forced += 1;
+    }
     for p in 3..=255u8 {
         bounded(&a, &b64(p, &[1, 2, 3]), "unknown prefix");
         a.evals.fetch_add(1, Ordering::Relaxed);
